@@ -197,6 +197,12 @@ pub fn judge_texts(fault_text: &str, twin_text: &str) -> Judged {
     let to = compile_src(twin_text);
     let control_ok = to.is_ok();
     let mut fail = None;
+    // the accepted twin must also be loadable Lua (second observation of C05; C06's invariant)
+    if let Outcome::Ok(lua) = &to {
+        if let Err(e) = crate::luarun::loads(lua) {
+            return Judged { fail: Some(("accepted-twin-does-not-load".to_string(), format!("{:?}\n{}", e, twin_text))), control_ok, fault_outcome: "twin-does-not-load".into(), fault_text: twin_text.to_string() };
+        }
+    }
     let fault_outcome;
     match &fo {
         Outcome::Ok(_) => {
